@@ -269,7 +269,7 @@ def run(chk, tier):
     chk.extra["model_var_configurations"] = len(varcfgs)
     chk.sample({"catalogue_line": cats_lines["var"][0]})
     classes = {str(nl): sorted(set(cats[nl]) | {"unpadded"}) for nl in cats if nl != "lk"}
-    lkclasses = sorted(c for c in cats["lk"] if not c.startswith("shape:") and not c.startswith("pow_") and "@last" not in c)
+    lkclasses = sorted(c for c in cats["lk"] if not c.startswith("shape:") and not c.startswith("pow_"))
     rows = scenarios(tier, rnd, varcfgs, classes) + lookup_members(tier, lkclasses)
     res = run_parallel(rows, "c11_run", 3)
     common.write_ndjson(os.path.join(common.OUT, "c11_results.ndjson"), res)
